@@ -72,7 +72,7 @@ func vhLogRc(c *Context, i int) {
 	v, _ := vhByCtx.Load(c)
 	x := v.(*vhCtx)
 	x.red++
-	if x.red > 20000 {
+	if x.red > 600+40*len(x.toks) {
 		x.buf = append(x.buf, "DIVERGE")
 		panic("vh-diverge")
 	}
